@@ -650,6 +650,54 @@ def device_call_kernels(ctx, S):
                      f"under the spec plays {(want[k] if k < len(want) else '<none>')[:110]}")
         else:
             ctx.nt(("device-calls", fold))
+    device_call_history(ctx, S)
+
+
+def device_call_history(ctx, S):
+    """ONE unspecialised kernel object that plays device functions, executed under spec S, then under another spec, then under S again, and
+    finally compiled with the other spec: every execution plays what the kernel's source means under the spec of THAT execution (the
+    expectation is the source evaluated natively), so executing a kernel under a spec leaves nothing of that spec behind on it"""
+    from bloqade.geometry.dialects.grid import Grid
+    from bloqade.shuttle.arch import ArchSpec, Layout
+    from gen import move_native
+    from props import tracer_common as tc
+    from vcommon import events
+    L = S.layout
+    lay2 = Layout(static_traps={**L.static_traps, "traps": Grid.from_positions([100.0, 103.0, 107.0, 112.0], [50.0, 52.0, 55.0])}, fillable=set(L.fillable),
+                  has_cz=set(L.has_cz), has_local=set(L.has_local), special_grid=dict(L.special_grid))
+    S2 = ArchSpec(layout=lay2, float_constants={**S.float_constants, "pitch": 0.75}, int_constants=dict(S.int_constants))
+    src = DEVICE_CALL_SRC.replace("{DEC}", "")
+    ns = kernels.define(src, S=S)
+    root = ns["root"]
+
+    def native(X):
+        r = move_native.run_native(src, (1.5,), X, kernel_ns={"kd": ns["kd"]}, main="root")
+        return events.events_text(r[1], tc.PosTable()) if r[0] == "ok" else None
+    want = {"S": native(S), "S2": native(S2)}
+    if want["S"] is None or want["S2"] is None or want["S"] == want["S2"] or len(want["S"]) != 5:
+        ctx.obligation("the device-call kernel has native references that differ between the two specs", False, str(want)[:300])
+        return
+    steps = [("S", "run"), ("S2", "run"), ("S", "run"), ("S2", "compiled"), ("S", "compiled"), ("S2", "run")]
+    for k, (name, how) in enumerate(steps):
+        X = {"S": S, "S2": S2}[name]
+        ctx.evaluations += 1
+        rep = {"device_call_history": True, "step": k, "steps": [list(t) for t in steps]}
+        try:
+            if how == "run":
+                st, evs, extra = events.run_events(root, (1.5,), X)
+            else:
+                m = kernels.define(DEVICE_CALL_SRC.replace("{DEC}", "(arch_spec=S)"), S=X)["root"]
+                st, evs, extra = events.run_events(m, (1.5,), X, plain=True)
+        except Exception as e:
+            st, evs, extra = "err", [], f"{type(e).__name__}: {e}"
+        got = events.events_text(evs, tc.PosTable()) if st == "ok" else ["ERR " + str(extra)[:100]]
+        if got != want[name]:
+            j = next((j for j in range(min(len(got), len(want[name]))) if got[j] != want[name][j]), min(len(got), len(want[name])))
+            ctx.fail({"kind": "behaviour-differs", "device_calls": True, "history_step": k, "how": how}, rep,
+                     f"step {k} of {steps}: the kernel {'executed under' if how == 'run' else 'compiled with'} spec {name} plays "
+                     f"{(got[j] if j < len(got) else '<none>')[:110]} where its source under that spec means {(want[name][j] if j < len(want[name]) else '<none>')[:110]}")
+        else:
+            ctx.nt(("device-call-history", k))
 
 
 def run(ctx):
@@ -909,11 +957,21 @@ def replay(data):
             b = "ERR"
         known = inp["name_known_under_this_kind"]
         return a != b or (not known and a != "ERR") or (known and a == "ERR"), f"compiled: {a[:60]}; spec interpreter: {b[:60]}"
+    if inp.get("device_call_history"):
+        class C:
+            def __init__(s): s.fails, s.evaluations = [], 0
+            def fail(s, sig, rep, what): s.fails.append(what)
+            def nt(s, *a): pass
+            def obligation(s, n, ok, log=""):
+                if not ok: s.fails.append(n)
+        c = C()
+        device_call_history(c, c06_spec())
+        return bool(c.fails), (c.fails or ["every execution plays what the source means under its own spec"])[0][:200]
     if "device_call_src" in inp:
         class C:
             def __init__(s): s.fails, s.evaluations = [], 0
             def fail(s, sig, rep, what):
-                if rep["fold"] == inp["fold"]: s.fails.append(what)
+                if rep.get("fold") == inp["fold"]: s.fails.append(what)
             def nt(s, *a): pass
             def obligation(s, n, ok, log=""):
                 if not ok: s.fails.append(n)
